@@ -788,6 +788,9 @@ def c02(chk):
     # beyond the list: the domain-linkage validator, which is built on this credential validator (DomainLinkage.tla)
     dl = chk.mc("DomainLinkage", "DomainLinkage_%s.cfg" % chk.tier, workers=4, timeout=300, heap="2g")
     chk.replay(dl["cases_file"], tag=".dl", prop_driver="DL", timeout=1200, vacuity=False, extended=True)
+    # beyond the list: what "structurally well formed" means for credentials and presentations (CredentialStructure.tla)
+    csx = chk.mc("CredentialStructure", "CredentialStructure_%s.cfg" % chk.tier, workers=2, timeout=300, heap="2g")
+    chk.replay(csx["cases_file"], tag=".cs", prop_driver="CS", timeout=1200, vacuity=False, extended=True)
     # ... and the typed service wrappers that go with it (LinkedServices.tla)
     lsv = chk.mc("LinkedServices", "LinkedServices_%s.cfg" % chk.tier, workers=2, timeout=300, heap="2g")
     chk.replay(lsv["cases_file"], tag=".ls", prop_driver="LS", timeout=1200, vacuity=False, extended=True)
